@@ -76,6 +76,9 @@ func (enc *VP8Encoder) encodeFrame() {
 
 		// 6. Record tokens for the coefficient data (skip if no coefficients).
 		if info.Skip {
+			// A skipped MB owns an empty token range; without the mark
+			// EmitTokensPartitioned reads a stale mbStart entry.
+			enc.tokens.MarkMBStart(it.MBIdx)
 			// Mirror decoder's skip handling: clear NZ context.
 			enc.topNz[it.X] = 0
 			enc.leftNz = 0
